@@ -9,6 +9,7 @@ import NmfuModel.SrcParse
 import NmfuModel.EquivF
 import NmfuModel.Ambig
 import NmfuModel.MacroLookup
+import NmfuModel.Opt
 import NmfuModel.Generated.Flags
 open Nmfu
 
@@ -229,6 +230,23 @@ def cmdWf (args : List String) : String :=
     | .error e => s!"error parse {e}"
   | _ => "error bad-args"
 
+/-- `optpass|<simplify|remove>|<machine before>|<machine after>`: is the machine after the real pass
+    the mirror of the pass applied to the machine before?  (`det`: hypothesis of the preservation
+    theorem; `closed`: hypothesis of the removal theorem, for the kept set the mirror computed.) -/
+def cmdOptPass (args : List String) : String :=
+  match args with
+  | [pass, ma, mb] =>
+    match parseMachine ma, parseMachine mb with
+    | .ok A, .ok B =>
+      -- (a pass whose flag is off returns at once: the identity)
+      let M' := if pass == "simplify" then A.simplifyElse else if pass == "remove" then A.removeInaccessible else A
+      let same := M'.sameTable B
+      let diff := match M'.firstDiff B with | some i => toString i | none => "-"
+      s!"ok same={same} det={A.deterministic} detAfter={B.deterministic} sizes={A.states.size}/{M'.states.size}/{B.states.size} start={M'.start}/{B.start} diff={diff}"
+    | .error e, _ => s!"error parseA {e}"
+    | _, .error e => s!"error parseB {e}"
+  | _ => "error bad-args"
+
 def cmdSpin (args : List String) : String :=
   match args with
   | [opts, m] =>
@@ -391,6 +409,7 @@ def handle (line : String) : String :=
   | "rt" :: args => cmdRt args
   | "wf" :: args => cmdWf args
   | "spin" :: args => cmdSpin args
+  | "optpass" :: args => cmdOptPass args
   | "labels" :: args => cmdLabels args
   | "cli" :: args => cmdCli args
   | "lit" :: args => cmdLit args
